@@ -155,3 +155,79 @@ func c08Snapshot(c *Ctx) {
 		c.Precedes(fn, "mark the old disk layer stale", StoreTo(`\(\*kai/state/snapshot\.diskLayer\)\.stale$`), "writing the flushed data", CallTo(`^kai/rawdb\.(WriteAccountSnapshot|WriteStorageSnapshot|DeleteAccountSnapshot)$`, ""))
 	}
 }
+
+// c08ReadPath: the order in which the state consults its tiers when reading committed data.
+func c08ReadPath(c *Ctx) {
+	if fn := c.Fn("kai/state", "stateObject", "GetCommittedState"); fn != nil {
+		pend := `^s\.pendingStorage\[key\]#1$`
+		orig := `^s\.originStorage\[key\]#1$`
+		destr := `^s\.db\.stateObjectsDestruct\[s\.address\]#1$`
+		snapRead := CallTo(`^iface:\(kai/state/snapshot\.Snapshot\)\.Storage$`, "")
+		trieRead := CallTo(`^iface:\(kai/state\.Trie\)\.GetStorage$`, "")
+		c.Guarded(fn, "consult the snapshot or the trie", Or(snapRead, trieRead),
+			G("no pending write of this slot", False(pend)), G("not cached as committed", False(orig)),
+			G("account not destructed in this block (its old storage must not shine through)", False(destr)))
+		c.Guarded(fn, "read the snapshot", snapRead, G("snapshots enabled", NotNil(`^s\.db\.snap$`)))
+		c.Guarded(fn, "read the trie", trieRead, G("no snapshot, or the snapshot read failed", IsNil(`^s\.db\.snap$`), NotNil(`^phi\(call:iface:\(kai/state/snapshot\.Snapshot\)\.Storage\(.*#1\|nil\)$`)))
+		for _, in := range findInstrs(fn, snapRead) {
+			a := argPaths(callCommon(in))
+			c.Check("F", fnName(fn)+"/the snapshot is asked for this account's hash and the hash of the slot key", len(a) == 3 && a[1] == "s.addrHash" && a[2] == "call:lib/crypto.Keccak256Hash(varargs[call:(lib/common.Hash).Bytes(key)])", instrPos(in), 1, strings.Join(a, ", "))
+		}
+		for _, in := range findInstrs(fn, trieRead) {
+			a := argPaths(callCommon(in))
+			c.Check("F", fnName(fn)+"/the trie is asked for this account's address and the slot key", len(a) == 3 && a[1] == "s.address" && a[2] == "call:(lib/common.Hash).Bytes(key)", instrPos(in), 1, strings.Join(a, ", "))
+		}
+		// the value decoded from the snapshot is the content of the RLP string (the form updateTrie caches)
+		n := 0
+		for _, in := range findInstrs(fn, CallTo(`^\(\*lib/common\.Hash\)\.SetBytes$`, "")) {
+			a := argPaths(callCommon(in))
+			if len(a) == 2 && (strings.HasPrefix(a[1], "call:lib/rlp.Split(call:iface:(kai/state/snapshot.Snapshot).Storage(") && strings.HasSuffix(a[1], "#1") || strings.HasPrefix(a[1], "call:iface:(kai/state.Trie).GetStorage(") && strings.HasSuffix(a[1], "#0")) {
+				n++
+			}
+		}
+		c.Check("F", fnName(fn)+"/the value is the content of the snapshot's RLP string, or what the trie returned", n == 2, fn.Pos(), n, "")
+		// the cache is only filled with what was read, never on the error exits
+		c.Guarded(fn, "cache the value as committed", func(in ssa.Instruction) bool {
+			mu, ok := in.(*ssa.MapUpdate)
+			return ok && pathOf(mu.Map) == "s.originStorage"
+		}, G("trie opened (when it was needed)", IsNil(`getTrie\(s, db\)#1$`), NotNil(`^s\.db\.snap$`)), G("trie read succeeded (when it was needed)", IsNil(`GetStorage\(.*#1$`), NotNil(`^s\.db\.snap$`)))
+	}
+	if fn := c.Fn("kai/state", "StateDB", "getDeletedStateObject"); fn != nil {
+		live := `^s\.stateObjects\[addr\]$`
+		snapRead := CallTo(`^iface:\(kai/state/snapshot\.Snapshot\)\.Account$`, "")
+		trieRead := CallTo(`^iface:\(kai/state\.Trie\)\.GetAccount$`, "")
+		c.Guarded(fn, "load from snapshot or trie", Or(snapRead, trieRead), G("no live object (live objects carry uncommitted changes)", IsNil(live)))
+		c.Guarded(fn, "read the trie", trieRead, G("nothing usable came from the snapshot", IsNil(`^phi\(&alloc:complit:types\.StateAccount\|nil\)$`)))
+		for _, in := range findInstrs(fn, snapRead) {
+			a := argPaths(callCommon(in))
+			c.Check("F", fnName(fn)+"/the snapshot is asked for the hash of the address", len(a) == 2 && a[1] == "call:lib/crypto.HashData(s.hasher, call:(lib/common.Address).Bytes(addr))", instrPos(in), 1, strings.Join(a, ", "))
+		}
+		acc := `call:iface:(kai/state/snapshot.Snapshot).Account(s.snap, call:lib/crypto.HashData(s.hasher, call:(lib/common.Address).Bytes(addr)))#0`
+		ok := 0
+		for _, in := range findInstrs(fn, StoreTo(`^&alloc:complit:types\.StateAccount\.(Nonce|Balance|CodeHash|Root)$`)) {
+			st := in.(*ssa.Store)
+			f := pathOf(st.Addr)
+			f = f[strings.LastIndex(f, ".")+1:]
+			v := pathOf(st.Val)
+			if v == acc+"."+f || (f == "Root" && v == "call:lib/common.BytesToHash("+acc+".Root)") {
+				ok++
+			}
+		}
+		c.Check("F", fnName(fn)+"/the four account fields are taken from the like-named fields of the snapshot account", ok == 4, fn.Pos(), ok, "")
+		c.Guarded(fn, "use the empty code hash", func(in ssa.Instruction) bool {
+			st, ok := in.(*ssa.Store)
+			return ok && strings.HasSuffix(pathOf(st.Addr), "StateAccount.CodeHash") && strings.Contains(pathOf(st.Val), "EmptyCodeHash")
+		}, G("the slim account has no code hash", Cmp(`^call:len\(alloc:complit:types\.StateAccount\.CodeHash\)$`, "==", `^const:0$`)))
+		c.Guarded(fn, "use the empty root", func(in ssa.Instruction) bool {
+			st, ok := in.(*ssa.Store)
+			return ok && strings.HasSuffix(pathOf(st.Addr), "StateAccount.Root") && strings.Contains(pathOf(st.Val), "EmptyRootHash")
+		}, G("the slim account has no root", IsNil(`^alloc:complit:types\.StateAccount\.Root$`), Cmp(`StateAccount\.Root$`, "==", `.`)))
+		c.Guarded(fn, "report the account as absent from the snapshot", func(in ssa.Instruction) bool {
+			r, ok := in.(*ssa.Return)
+			if !ok || pathOf(r.Results[0]) != "nil" {
+				return false
+			}
+			return hasCond(domConds(in), `Snapshot\)\.Account\(.*#0 == nil\)=T$`)
+		}, G("the snapshot read succeeded", IsNil(`Snapshot\)\.Account\(.*#1$`)))
+	}
+}
